@@ -43,6 +43,8 @@ type Extractor struct {
 	resolver        func(core.IndirectRef) (core.Object, error) // Reference resolver
 	xobjectDepth    int                                         // Current XObject nesting depth
 	maxXObjectDepth int                                         // Maximum nesting depth (prevents infinite recursion)
+	xobjectCalls    int                                         // Form XObjects invoked so far
+	maxXObjectCalls int                                         // Maximum number of invocations (bounds the total work)
 }
 
 // NewExtractor creates a new text extractor with initialized graphics state.
@@ -52,6 +54,10 @@ func NewExtractor() *Extractor {
 		fonts:           make(map[string]*font.Font),
 		fragments:       make([]TextFragment, 0),
 		maxXObjectDepth: 10, // Reasonable limit for nested XObjects
+		// The nesting limit alone leaves fan-out^depth invocations: a form that
+		// draws itself five times keeps a page busy for a minute, ten times for
+		// good. No real page comes near this many form invocations.
+		maxXObjectCalls: 100000,
 	}
 }
 
@@ -374,6 +380,12 @@ func (e *Extractor) invokeXObject(name string) error {
 	if e.xobjectDepth >= e.maxXObjectDepth {
 		return fmt.Errorf("XObject nesting too deep (max %d)", e.maxXObjectDepth)
 	}
+
+	// Check the total number of invocations
+	if e.xobjectCalls >= e.maxXObjectCalls {
+		return fmt.Errorf("too many XObject invocations (max %d)", e.maxXObjectCalls)
+	}
+	e.xobjectCalls++
 
 	// Get XObject dictionary from resources
 	xobjectDictObj := e.resources.Get("XObject")
